@@ -414,7 +414,7 @@ theorem crashed_member_is_detected :
 `Loop.Settled`: every view at its group's newest membership version, every running replica caught up with its group (and
 its shard has a view), nothing queued at a NodeHost, nothing scheduled, no stray recorded. `Loop.AllRunning`: every member
 of every group's newest membership runs on the NodeHost the membership names, and that NodeHost is up. `QuietStep`: a
-tick, a report of any NodeHost (reply lost or not), an execution, or a scheduling round (any draws, any map orders) taken
+tick, a report of any NodeHost (reply lost or not), an execution, a log catch-up, or a scheduling round (any draws, any map orders) taken
 at a moment when every member is classified healthy. `SameFleet`: same groups, and every address resolves to a NodeHost
 with the same replicas, data and power state. -/
 
